@@ -18,6 +18,7 @@ import GeomVerif.Driver.C15
 import GeomVerif.Driver.C14
 import GeomVerif.Driver.C13
 import GeomVerif.Driver.C16
+import GeomVerif.Driver.C18
 import GeomVerif.Driver.C19
 import GeomVerif.Driver.C20
 
@@ -37,6 +38,7 @@ def dispatch (op : String) (inp go : Sexp) : Option Reply :=
   else if op.startsWith "C14." then Driver.C14.handle op inp go
   else if op.startsWith "C15." then Driver.C15.handle op inp go
   else if op.startsWith "C16." then Driver.C16.handle op inp go
+  else if op.startsWith "C18." then Driver.C18.handle op inp go
   else if op.startsWith "C19." then Driver.C19.handle op inp go
   else if op.startsWith "C20." then Driver.C20.handle op inp go
   else none
